@@ -267,6 +267,8 @@ def translate_pattern(pattern: str, flags: int = 0, xsd_version: str = '1.0',
 
             else:
                 regex.append('\\%s' % pattern[pos])
+        elif ch == '#' and flags & re.VERBOSE:
+            regex.append('\\#')  # a normal character for XPath, a comment for Python's verbose mode
         else:
             regex.append(ch)
         pos += 1
